@@ -210,6 +210,10 @@ CHECKS["C20"] = {
          "files": ["zz_verif_c20.go", "zz_verif_c17.go"] + STATE_FILES, "with": ["verifdb"], "gen_stubs": [TX_STUB],
          "params": {"quick": grid(k=[2], faults=[0, 1, 2]), "thorough": grid(k=[3], faults=[0, 1, 2, 3])},
          "cover": ["append-ok"]},
+        {"name": "cycle", "pkg": "internal/state", "pkgname": "state", "entry": "VerifC20Cycle",
+         "files": ["zz_verif_c20.go", "zz_verif_c17.go"] + STATE_FILES, "with": ["verifdb"], "gen_stubs": [TX_STUB],
+         "params": {"quick": grid(k=[2, 3], faults=[2]), "thorough": grid(k=[4], faults=[2, 3])},
+         "cover": ["cycle-append-ok", "cycle-append-refused", "cycle-moved-out"]},
         {"name": "protected", "pkg": "internal/state", "pkgname": "state", "entry": "VerifC20Protected",
          "files": ["zz_verif_c20.go", "zz_verif_c17.go"] + STATE_FILES, "with": ["verifdb"], "gen_stubs": [TX_STUB],
          "params": {"quick": [{}], "thorough": [{}]}, "cover": []},
